@@ -8,6 +8,7 @@ import (
 	"fmt"
 	"reflect"
 	"sync"
+	"sync/atomic"
 	"time"
 
 	"github.com/mark3labs/flyt"
@@ -17,6 +18,7 @@ func init() {
 	specials["fallback-rescues-with-nil"] = fallbackRescuesWithNil
 	specials["typed-struct-slice-items"] = typedStructSliceItems
 	specials["half-retry-interface"] = halfRetryInterface
+	specials["negative-wait-after-positive"] = negativeWaitAfterPositive
 	specials["embedded-flow-rescued-by-fallback"] = embeddedFlowRescuedByFallback
 }
 
@@ -242,7 +244,12 @@ func typedStructSliceItems() (fs []finding) {
 			return l, e
 		},
 	}
-	names := []string{"[]struct", "[]*struct", "[]struct{}", "[][2]int", "[]string", "[]map"}
+	r18e := errors.New("an error result as payload")
+	lists["[]any-holding-Results"] = func() (any, []any) {
+		l := []any{flyt.NewResult("a"), flyt.NewErrorResult(r18e), "plain", flyt.NewResult(nil)}
+		return l, append([]any(nil), l...)
+	}
+	names := []string{"[]struct", "[]*struct", "[]struct{}", "[][2]int", "[]string", "[]map", "[]any-holding-Results"}
 	for _, name := range names {
 		for _, c := range []int{0, 2} {
 			for _, style := range []string{"any", "result"} {
@@ -314,6 +321,9 @@ func typedStructSliceItems() (fs []finding) {
 					if !same(postItems[i], want[i]) {
 						add("typed-slice-post-item:"+name, "%s: post's item %d is %T %+v, want element %d of prep's list: %T %+v", tag, i, postItems[i], postItems[i], i, want[i], want[i])
 						break
+					}
+					if _, isRes := want[i].(flyt.Result); isRes {
+						continue // an exec outcome that already is a Result is stored as it is (not wrapped again): its payload is not the element
 					}
 					if !same(postResults[i], want[i]) { // exec echoes its argument
 						add("typed-slice-post-result:"+name, "%s: exec echoes its argument; post's result %d is %T %+v, want %T %+v", tag, i, postResults[i], postResults[i], want[i], want[i])
@@ -440,6 +450,65 @@ func embeddedFlowRescuedByFallback() (fs []finding) {
 			} else if act == "" {
 				fs = append(fs, finding{"rescued-embedded-flow-empty-action", fmt.Sprintf("rescued embedded flow (rescue %T %v, depth %d): run succeeded with the empty action", rescue, rescue, depth)})
 			}
+		}
+	}
+	return fs
+}
+
+// negativeWaitAfterPositive (C19): the last setting of the wait wins also when it is a negative duration (which means
+// "no wait", like zero): after WithWait(1h) followed by WithWait(-1ms), in every mixture of option and builder form,
+// the earlier hour is no longer in force — GetWait() is not positive and a retry starts without the hour's sleep.
+// (Whether the library stores the negative value or clamps it to zero is not prescribed.)
+func negativeWaitAfterPositive() (fs []finding) {
+	type built struct {
+		name string
+		node flyt.Node
+		get  func() time.Duration
+	}
+	mk := func(exec func(context.Context, any) (any, error)) []built {
+		var out []built
+		// plain node builder
+		n1 := flyt.NewNode(flyt.WithMaxRetries(2), flyt.WithWait(time.Hour), flyt.WithWait(-time.Millisecond), flyt.WithExecFuncAny(exec))
+		out = append(out, built{"NewNode(option 1h, option -1ms)", n1, n1.GetWait})
+		n2 := flyt.NewNode(flyt.WithMaxRetries(2), flyt.WithWait(time.Hour), flyt.WithExecFuncAny(exec)).WithWait(-time.Millisecond)
+		out = append(out, built{"NewNode(option 1h).WithWait(-1ms)", n2, n2.GetWait})
+		n3 := flyt.NewNode(flyt.WithExecFuncAny(exec)).WithMaxRetries(2).WithWait(time.Hour).WithWait(-time.Millisecond)
+		out = append(out, built{"NewNode().WithWait(1h).WithWait(-1ms)", n3, n3.GetWait})
+		n4 := flyt.NewNode(flyt.WithExecFuncAny(exec)).WithMaxRetries(2).WithWait(time.Hour)
+		flyt.WithWait(-time.Millisecond)(n4.BaseNode)
+		out = append(out, built{"NewNode().WithWait(1h) then option -1ms applied to its BaseNode", n4, n4.GetWait})
+		// batch node builder (one item)
+		b1 := flyt.NewBatchNode(flyt.WithMaxRetries(2), flyt.WithWait(time.Hour), flyt.WithExecFuncAny(exec)).WithWait(-time.Millisecond).
+			WithPrepFunc(func(context.Context, *flyt.SharedStore) ([]flyt.Result, error) { return []flyt.Result{flyt.NewResult(1)}, nil })
+		out = append(out, built{"NewBatchNode(option 1h).WithWait(-1ms)", b1, b1.GetWait})
+		b2 := flyt.NewBatchNode(flyt.WithExecFuncAny(exec)).WithMaxRetries(2).WithWait(time.Hour).WithWait(-time.Millisecond).
+			WithPrepFunc(func(context.Context, *flyt.SharedStore) ([]flyt.Result, error) { return []flyt.Result{flyt.NewResult(1)}, nil })
+		out = append(out, built{"NewBatchNode().WithWait(1h).WithWait(-1ms)", b2, b2.GetWait})
+		return out
+	}
+	probe := mk(func(context.Context, any) (any, error) { return nil, nil })
+	for i := range probe {
+		var calls int32
+		exec := func(context.Context, any) (any, error) {
+			if atomic.AddInt32(&calls, 1) == 1 {
+				return nil, errors.New("first attempt fails")
+			}
+			return "ok", nil
+		}
+		b := mk(exec)[i]
+		if w := b.get(); w > 0 {
+			fs = append(fs, finding{"negative-wait-does-not-replace-earlier-wait:getter", fmt.Sprintf("%s: GetWait() = %v — the earlier setting is still in force although a later one replaced it", b.name, w)})
+			continue // (running it would sleep)
+		}
+		done := make(chan error, 1)
+		go func() { _, err := flyt.Run(context.Background(), b.node, flyt.NewSharedStore()); done <- err }()
+		select {
+		case err := <-done:
+			if err != nil || atomic.LoadInt32(&calls) != 2 {
+				fs = append(fs, finding{"negative-wait-run", fmt.Sprintf("%s, budget 2, first attempt fails: run returned %v after %d attempts (want nil, 2)", b.name, err, atomic.LoadInt32(&calls))})
+			}
+		case <-time.After(20 * time.Second):
+			fs = append(fs, finding{"negative-wait-does-not-replace-earlier-wait:sleeps", fmt.Sprintf("%s, budget 2, first attempt fails: GetWait() reports no wait, yet the retry had not started after 20 s", b.name)})
 		}
 	}
 	return fs
